@@ -605,7 +605,7 @@ func (t *patricia[V]) Match(pattern string) []KeyValue[string, V] {
 
 func (t *patricia[V]) _match(prev, curr *patriciaNode[V], pattern *bitPattern, visit func(n *patriciaNode[V])) {
 	if prev.bp >= curr.bp {
-		if curr.key.Len() == pattern.Len() {
+		if pattern.Matches(curr.key) { // the search only tested the bits of the internal nodes on the path
 			visit(curr)
 		}
 		return
